@@ -86,3 +86,35 @@ Proof.
   destruct CacheSafe.incomplete_entry_served as [H1 [_ [H3 [_ [_ [_ H7]]]]]]. exact (conj H1 (conj H3 H7)).
 Qed.
 Print Assumptions C08_refuted_hit_serves_incomplete_entry.
+
+(* ---- REFUTED on the code as it is: witnesses by computation on the executable models
+   (Proofs/Refute.v); each is a recorded finding (KNOWN_FINDINGS.txt) ---- *)
+From EL Require Model.Exec Model.ExecInv Model.StepExec Model.FileExec Model.FileSpec Model.CacheExec Model.CacheSpec Proofs.FileSafe Proofs.FileRefute Proofs.CacheSafe Proofs.Refute.
+Module RefutedC08.
+Import Exec ExecInv StepExec FileExec FileSpec CacheExec CacheSpec FileSafe FileRefute CacheSafe Refute.
+Import ListNotations.
+
+(* finding D17: two identical calls on two workers both miss, both compute; the second dump collides with the finished entry and that call's future reports an exception although no function failed *)
+Theorem C08_refuted_identical_calls_collide :
+  ccanon d10_cfg 2 = ccanon d10_cfg 1
+  /\ (forall i, raises (cbase d10_cfg) i = false)                            (* no function fails *)
+  /\ crun d10_cfg d17_a d17_init = Some d17_s1
+  /\ cfs d17_s1 = []                                                         (* both have missed *)
+  /\ map wp (ws (cb d17_s1)) = [WSrnc 1; WSrnc 2] /\ cov d17_s1 = [CNone; CNone]
+  /\ crun d10_cfg d17_b d17_s1 = Some d17_s2
+  /\ cfs d17_s2 = [(cpath d10_cfg 1, full_entry)]                            (* W1's dump is complete *)
+  /\ getf (cb d17_s2) 1 = FRes 1
+  /\ crun d10_cfg d17_c d17_s2 = Some d17_s3
+  /\ getov d17_s3 1 = CDClose false 2 2                                      (* name already exists *)
+  /\ map pp (ps (cb d17_s3)) = [PRecv; PRecv]                                (* P2 has sent MRes 2 *)
+  /\ getf (cb d17_s3) 2 = FRunning
+  /\ crun d10_cfg d17_d d17_s3 = Some d17_s4
+  /\ getf (cb d17_s4) 2 = FExc                                               (* future 2: exception *)
+  /\ map wp (ws (cb d17_s4)) = [WGet; WDead]                                 (* W2 has died *)
+  /\ map pp (ps (cb d17_s4)) = [PRecv; PExit]
+  /\ getf (cb d17_s4) 1 = FRes 1
+  /\ cfs d17_s4 = [(cpath d10_cfg 1, full_entry)]
+  /\ creach d10_cfg d17_init d17_s4.
+Proof. exact cache_identical_calls_collide. Qed.
+Print Assumptions C08_refuted_identical_calls_collide.
+End RefutedC08.
